@@ -21,6 +21,13 @@ pub fn check_sinks(c: &TV, acc: &mut Acc, record: bool) -> Verdict {
         if first.is_err() {
             acc.bump("sink_cases_where_encoding_fails", 1);
         }
+        if vmodel::refcodec::has_dedup_sources(&c.ty) {
+            if let Ok(f) = vmodel::refcodec::ref_encode(&c.ty, &c.val) {
+                if f.sites.iter().any(|s| s.kind == vmodel::refcodec::SiteKind::DedupRef) {
+                    acc.bump("sink_cases_with_a_string_back_reference", 1);
+                }
+            }
+        }
         if acc.wants_sample(&class) {
             acc.sample(&class, json!({"type": c.ty.render(), "value": c.val.brief(), "bytes": first.as_ref().map(|b| hex(&b[..b.len().min(48)])).unwrap_or_else(|e| format!("Err {}", e.kind)), "size_calculator": format!("{:?}", rep.size.as_ref().map_err(|e| e.kind.clone()))}));
         }
@@ -296,13 +303,19 @@ pub fn run(cx: &Cx) -> PropResult {
         if drive(crate::run::tag_seed(derive_seed(cx.seed, cx.prop, shard as u64, 2), 2), &strat, n_sinks / 5, acc, &|c: &TV| to_json(&Case::Sinks(c.clone())), &mut |c, a, r| check_sinks(c, a, r)) {
             return;
         }
+        // values that exercise the per-call state: repeated deduplicated strings (six-string alphabet), derived types
+        // with removed-field names in repeated headers
+        let strat = crate::props::builtin::tv_strategy_ext(depth, ValCfg { small_alphabet: true, max_len: 6, ..ValCfg::default() }, true);
+        if drive(crate::run::tag_seed(derive_seed(cx.seed, cx.prop, shard as u64, 3), 3), &strat, n_sinks / 2, acc, &|c: &TV| to_json(&Case::Sinks(c.clone())), &mut |c, a, r| check_sinks(c, a, r)) {
+            return;
+        }
         let strat = ops_strategy();
         drive(crate::run::tag_seed(derive_seed(cx.seed, cx.prop, shard as u64, 1), 1), &strat, n_ops, acc, &|c: &OpsCase| to_json(&Case::Ops(c.clone())), &mut |c, a, r| check_ops(c, a, r));
     });
     PropResult::new(
         acc,
         "exploration",
-        "(a) generated (type, value) cases, including values whose encoding fails (non-BMP chars): the same instance is serialized through serialize(Vec<u8>), serialize(BytesMut), serialize_to_bytes, serialize_to_byte_vec, a user-defined recording output and the same output fed byte by byte; all streams (or all errors) must be identical and SizeCalculator.size() must equal the length. (b) generated sequences of primitive reads (fixed-width, varints, read_bytes / skip with counts 0, remaining-2..remaining+2, usize::MAX, usize::MAX-pos, huge; read_compressed) over generated byte strings, executed on SliceInput, OwnedInput and DeserializationContext: results must agree op by op and the three must see the end of input at the same point. Non-trivial = (a) encoding >= 2 bytes or failing; (b) a sequence with a successful multi-byte read and a failing op.",
+        "(a) generated (type, value) cases, including values whose encoding fails (non-BMP chars) and a stream of values over a six-string alphabet with DeduplicatedString and derived types (back-references, repeated header names): the same instance is serialized through serialize(Vec<u8>), serialize(BytesMut), serialize_to_bytes, serialize_to_byte_vec, a user-defined recording output and the same output fed byte by byte; all streams (or all errors) must be identical and SizeCalculator.size() must equal the length. (b) generated sequences of primitive reads (fixed-width, varints, read_bytes / skip with counts 0, remaining-2..remaining+2, usize::MAX, usize::MAX-pos, huge; read_compressed) over generated byte strings, executed on SliceInput, OwnedInput and DeserializationContext: results must agree op by op and the three must see the end of input at the same point. Non-trivial = (a) encoding >= 2 bytes or failing; (b) a sequence with a successful multi-byte read and a failing op.",
     )
 }
 
